@@ -96,6 +96,27 @@ def run_case(case, r):
             want = np.zeros(dim)
             want[car.index(conv[m][0])] = conv[m][1] * vs[p]
             r.check(np.array_equal(step, want), f"C20/coordinate-system/dim={dim}/axis={m}", "one voxel step moves along the conventional Cartesian axis with the conventional orientation", got=step, want=want)
+        # ... for voxel indices of every integer storage type (reversed axes negate the step: unsigned
+        # types must not wrap), and for the all-voxel batches of the system
+        for dt_ in ("uint8", "uint16", "uint32", "uint64", "int8", "int32"):
+            for p, m in enumerate(mat):
+                e = np.zeros(dim, dtype=dt_)
+                e[p] = 1
+                step = np.asarray(cs.coordinate(e), dtype=float) - o
+                want = np.zeros(dim)
+                want[car.index(conv[m][0])] = conv[m][1] * vs[p]
+                r.check(np.array_equal(step, want), f"C20/coordinate-system/dim={dim}/axis={m}/index-dtype", "one voxel step follows the convention whatever integer type the index is stored in", dtype=dt_, got=step, want=want)
+        allv, allc = np.asarray(cs.voxels), np.asarray(cs.coordinates, dtype=float)
+        okb = allv.shape == allc.shape == (int(np.prod(img.num_voxels)), dim)
+        if okb:
+            for nrow in range(allv.shape[0]):
+                wantc = o.copy()
+                for p, m in enumerate(mat):
+                    wantc[car.index(conv[m][0])] += conv[m][1] * vs[p] * allv[nrow, p]
+                if not np.array_equal(allc[nrow], wantc):
+                    okb = False
+                    break
+        r.check(okb, f"C20/coordinate-system/dim={dim}/all-voxels-batch", "coordinates[n] is the coordinate of voxels[n] under the axis convention (walking along a matrix axis in the voxel list moves along its Cartesian partner)", shape=list(img.num_voxels))
         # --- interpret_indexing versus the convention, both directions
         for p, m in enumerate(mat):
             c, sgn = conv[m]
